@@ -26,10 +26,11 @@ fn value_of(r: &mut Rng, ty: &str, uniq: &mut i32) -> SItem {
         "FLOATVECTOR" => SItem::FV(vec![fb(*uniq as f32)]),
         // CODE / EXEC values: an atom, or a small list that pushes a recognisable integer
         _ => {
-            if r.bool() {
-                SItem::Int(*uniq)
-            } else {
-                SItem::List(vec![SItem::Int(*uniq), SItem::Instr("INTEGER.DUP".into())])
+            match r.below(5) {
+                0 | 1 => SItem::Int(*uniq),
+                2 | 3 => SItem::List(vec![SItem::Int(*uniq), SItem::Instr("INTEGER.DUP".into())]),
+                // a name bound to a name: using it must look the second name up in turn (chain)
+                _ => SItem::Name(NAMES[r.below(3)].into()),
             }
         }
     }
